@@ -86,7 +86,7 @@ func option02(o Opt16) url.ParserOption {
 		case "only-file":
 			return url.WithSpecialSchemes(map[string]string{"file": ""})
 		}
-		return url.WithSpecialSchemes(withAddedScheme("gopher", "70"))
+		return url.WithSpecialSchemes(withAddedScheme("gopher", "70", o.Pad))
 	}
 	return o.option()
 }
@@ -386,6 +386,7 @@ func genOpt02(t *rapid.T, name string) Opt16 {
 	switch name {
 	case "special-map":
 		o.Str = gen.Pick(t, "map", []string{"default+gopher", "no-file", "empty", "nil", "bad-port", "only-file"})
+		o.Pad = rapid.SampledFrom([]int{0, 0, 1, 3, 10, 60, 300}).Draw(t, "tablepad")
 	case "encoding":
 		o.Str = gen.Pick(t, "charmap", []string{"iso8859_1", "windows1252", "koi8r"})
 	case "pre-host", "post-host":
